@@ -508,9 +508,25 @@ class Program:
                 tps, ret, params, body = self.fns[name]
                 sub = lambda s: self._mono_text(self._subst(s, tps, args), need)
                 fdefs.append((self.fn_order.index(name), "%s %s(%s) {\n%s\n}\n" % (sub(ret), mangle(name, args), sub(params), sub(body))))
-        # order: struct/enum/interface definitions (dependencies first = reverse discovery), impls, functions, main
-        structs = [t.split("@IMPL@")[0] for t in reversed(tdefs)]
-        impls = ["".join(t.split("@IMPL@")[1:]) for t in reversed(tdefs)]
+        # order: interface / struct / enum definitions with every definition after the ones it mentions, impls, functions, main
+        structs = [t.split("@IMPL@")[0] for t in tdefs]
+        impls = ["".join(t.split("@IMPL@")[1:]) for t in tdefs]
+        names = [re.match(r"(?:struct|enum|interface)\s+(\w+)", d).group(1) for d in structs]
+        placed, order = set(), []
+        pending = list(range(len(structs)))
+        while pending:
+            progress = False
+            for i in list(pending):
+                deps = [j for j in range(len(structs)) if j != i and re.search(r"\b%s\b" % re.escape(names[j]), structs[i])]
+                if all(j in placed for j in deps):
+                    order.append(i)
+                    placed.add(i)
+                    pending.remove(i)
+                    progress = True
+            if not progress:
+                order += pending
+                break
+        structs = [structs[i] for i in order]
         ifaces_first = [s for s in structs if s.startswith("interface")] + [s for s in structs if not s.startswith("interface")]
         fdefs.sort(key=lambda p: p[0])
         return self.plain + "".join(ifaces_first) + "".join(impls) + "".join(f for _, f in fdefs) + main
@@ -593,7 +609,8 @@ class Body:
             return "(%s ? %s : %s)" % (self.cond(d - 1), x, y)
         if k == "cast":
             # `(type)(identifier)` trips the parser (DESIGN section 7 #36): an atom is cast without parentheses
-            return "((%s)%s)" % (rng.choice(["long", "int", self.ty]), x)
+            # a cast to the type parameter inside a generic impl method does not parse (known finding C11-impl-cast-to-T)
+            return "((%s)%s)" % (rng.choice(["long", "int", self.ty] if self.in_fn else ["long", "int"]), x)
         if k == "call_helper":
             return "twice(%s)" % self.atom()
         if k == "bitops":
